@@ -151,6 +151,20 @@ class SymEnv(BaseEnv):
     def lift(self, x):
         return x if isinstance(x, SR) else SR(x)
 
+    def mat(self, x):
+        """the value as a plain term (a lazy root is materialised: y >= 0, y*y = q)"""
+        x = self.num(x)
+        return SR(x.v) if isinstance(x, SR) else x
+
+    def finite(self, x):
+        """value is a finite number (symbolic reals always are; inf/nan tokens are floats)"""
+        if isinstance(x, _np.ndarray) and x.ndim == 0:
+            x = x[()]
+        if isinstance(x, SR):
+            return True
+        c = core.conc(x)
+        return c is not None and not core.is_special(c)
+
     def sin(self, x):
         return self.lift(x).sin()
 
@@ -421,6 +435,15 @@ class RealEnv(BaseEnv):
 
     def lift(self, x):
         return float(x)
+
+    def mat(self, x):
+        return self.num(x)
+
+    def finite(self, x):
+        try:
+            return bool(math.isfinite(float(x)))
+        except (TypeError, ValueError):
+            return False
 
     def sin(self, x):
         return math.sin(x)
